@@ -53,6 +53,7 @@ package utils
 //@   ensures reader: implies(cvReader(message), result1 == nil && result0 == message)
 //@   ensures unsupported: implies(!cvBytes(message) && !cvVec(message) && !cvString(message) && !cvReader(message), result1 != nil)
 //@ func MustToReader
+//@   event
 //@   panics_iff !cvBytes(message) && !cvVec(message) && !cvString(message) && !cvReader(message)
 //@   ensures nonnil: implies(!cvReader(message), result != nil)
 //@   ensures bytes: implies(cvBytes(message), !rbad(result) && seqeq(rcontent(result), content(as(message, []byte))))
@@ -98,3 +99,14 @@ package utils
 //@   ensures stable_reader: implies(tbStable(message) && result1 == nil, seqeq(content(result0), old(rcontent(message))))
 //@   ensures reader: implies(tbOther(message) && !impl(message, io.WriterTo) && impl(message, io.Reader), (result1 == nil) == !rbad(message) && seqeq(content(result0), old(rcontent(message))))
 //@   ensures unsupported: implies(tbOther(message) && !impl(message, io.WriterTo) && !impl(message, io.Reader), result1 != nil)
+
+//@ func MustToBytes
+//@   event
+//@   requires implies(tbStable(message) || (tbOther(message) && impl(message, io.Reader)), rwf(message))
+//@   may_panic true
+//@   modifies ghost rpos, elems(uint8), cell(bytes.Buffer), ByteStealer.Data
+//@   ensures bytes: implies(tbBytes(message), sameslice(result, as(message, []byte)))
+//@   ensures str: implies(tbString(message), seqeq(content(result), content(as(message, string))))
+//@   ensures stable_reader: implies(tbStable(message), seqeq(content(result), old(rcontent(message))))
+//@   ensures reader: implies(tbOther(message) && !impl(message, io.WriterTo) && impl(message, io.Reader), !rbad(message) && seqeq(content(result), old(rcontent(message))))
+//@   ensures_panic unsupported_or_error: true
